@@ -135,6 +135,8 @@ def run(F, tier):
                 rep.add(Finding("P2b", s.fn["path"], s.text,
                                 "%s takes %s without a dominating test that the end of the range lies inside the "
                                 "text: a shorter input panics" % (s.fn["path"], s.text), s.fn["file"], s.node.get("ln")))
+    from . import charidx
+    charidx.p7(rep, F)
     # P5: recursion cycles and loops (listed)
     cg = CallGraph(F)
     nodes = set(p for p in F.mir if not F.mir[p].get("exp"))
